@@ -12,6 +12,12 @@ Import ListNotations.
 Open Scope nat_scope.
 """
 RB = 5000
+# Optional "getattr view" of instances (default off; C02 turns it on for its own process): a
+# managed attribute that is ABSENT from the instance dictionary but whose read falls back to a
+# mutable class-level object (`getattr(obj, name)` returns the class attribute) is shown as a
+# field of the instance holding that object.  On the unchanged library no API call leaves an
+# instance in such a state, so both views coincide there.
+GETATTR_VIEW = False
 
 
 class UserError(Exception):
@@ -70,8 +76,9 @@ class CB:
 class World:
     """Python-side state of one case: classes, roots, registries."""
 
-    def __init__(self, table):
+    def __init__(self, table, getattr_view=None):
         self.table = table
+        self.getattr_view = GETATTR_VIEW if getattr_view is None else getattr_view
         self.classes = {}     # cid -> class
         self.cid_of = {}      # class -> cid
         self.roots = []
@@ -284,7 +291,34 @@ class World:
 
     def fields(self, inst):
         d = object.__getattribute__(inst, "__dict__")
+        if self.getattr_view:
+            extra = self.class_fallback(inst, d)
+            if extra:
+                d = dict(d, **extra)
         return sorted(((aid_of_name(k), v) for k, v in d.items()), key=lambda p: p[0])
+
+    def class_fallback(self, inst, d):
+        """managed attributes missing from the instance dictionary whose read yields a mutable
+        class-level object (found statically along the MRO, then confirmed with getattr)"""
+        out = {}
+        try:
+            names = list(type(inst).__spec_class__.attrs)
+        except AttributeError:
+            return out
+        for name in names:
+            if name in d:
+                continue
+            for klass in type(inst).__mro__:
+                if name in klass.__dict__:
+                    v = klass.__dict__[name]
+                    if self.is_node(v):
+                        try:
+                            if getattr(inst, name) is v:
+                                out[name] = v
+                        except Exception:
+                            pass
+                    break
+        return out
 
     def children(self, o):
         if type(o) is list:
@@ -669,11 +703,11 @@ def line_coverage():
     return out
 
 
-def run_case(case, trace=False):
+def run_case(case, trace=False, getattr_view=None):
     import sys
     table, ops = case["table"], case["ops"]
     try:
-        w = World(table)
+        w = World(table, getattr_view=getattr_view)
         if trace:
             sys.settrace(_tracer)
         try:
